@@ -138,7 +138,8 @@ def random_graph(rnd, n, pools_decl, allow_phony=True, val_p=0.15, oo_p=0.15, ex
         iouts = []
         if not phony:
             if rnd.random() < 0.2:
-                outs.append("d%d/p%d" % (j, j))
+                # output directories are shared between steps (two of them for the whole graph)
+                outs.append("d%d/p%d" % (j % 2, j))
             if rnd.random() < 0.15:
                 iouts.append("x%d" % j)
         else:
@@ -148,6 +149,9 @@ def random_graph(rnd, n, pools_decl, allow_phony=True, val_p=0.15, oo_p=0.15, ex
         if not phony and pools_decl and rnd.random() < 0.5:
             pool = rnd.choice([p for p, _ in pools_decl] + ["console"])
         eff = {"kind": rnd.choice(["write", "write", "write", "keep"]), "reads": []}
+        # a command that fails may clean up after itself: it removes its (then empty) output
+        # directories, which n2 has to create again for whoever needs them next
+        eff["cleandir"] = rnd.random() < 0.6
         protos.append(dict(outs=outs, iouts=iouts, ins=ins, imp=imp, oo=oo, val=val,
                            phony=phony, pool=pool, eff=eff, j=j))
     steps = []
@@ -226,7 +230,8 @@ def random_sched(seed, tier):
                 inv["argv"] = argv[:len(argv) - nt] + sp
             return inv
         ops.append(spelled(invoke(targets, j=j, k=k, outcomes=outcomes, policy=pol)))
-        ops.append(spelled(invoke(targets, j=j, k=0, policy={"kind": "prio", "order": order})))
+        ops.append(spelled(invoke(targets, j=j, k=0, policy={"kind": "prio", "order": order},
+                                  explain=rnd.random() < 0.5)))
         ops.append(invoke(targets, j=j, k=0))
         scns.append(scenario("rnd-%d" % idx, ops, fam="sched", max_orders=24))
     return scns
